@@ -10,6 +10,8 @@ import (
 )
 
 type goroutine struct {
+	points  int
+	lastPoint string
 	id      int
 	stack   []*frame
 	resume  chan bool
@@ -159,6 +161,11 @@ func (m *Machine) yield(kind string) {
 	if m.inInit || len(m.gs) <= 1 {
 		return
 	}
+	if m.P.Instrumented && kind != "point" {
+		// instrumented programs are scheduled at statement boundaries (vfPoint) only, so that the native
+		// replay sees exactly the same points
+		return
+	}
 	m.pick(true, false)
 }
 
@@ -239,6 +246,15 @@ func (m *Machine) pick(curEnabled bool, exiting bool) {
 		target := list[k]
 		if target == cur && !exiting {
 			return
+		}
+		if !m.settling && !m.inInit {
+			kind := "block"
+			if exiting {
+				kind = "exit"
+			} else if curEnabled {
+				kind = "preempt"
+			}
+			m.sched = append(m.sched, SchedEntry{Kind: kind, From: cur.id, Points: cur.points, To: target.id})
 		}
 		m.switchTo(target, exiting)
 		return
